@@ -1,14 +1,13 @@
-//! hv — the verification harness.  usage: hv <property> <tier> <seed> <outdir> [--replay FILE] [--corpus DIR]
-mod common;
-mod gen;
-mod c13;
-mod c03;
-mod frontends;
+//! hv — shared library of the verification harness (one binary per property in src/bin/).
+//! binary usage: <bin> <tier> <seed> <outdir> [--replay FILE] [--corpus DIR]
+pub mod common;
+pub mod frontends;
+pub mod gen;
 
 use common::Args;
 use serde_json::Value;
 
-fn load_inputs(path: &str) -> Vec<Value> {
+pub fn load_inputs(path: &str) -> Vec<Value> {
     // a replay / corpus file holds either {"input": ...}, {"inputs": [...]} or a bare input
     let Ok(s) = std::fs::read_to_string(path) else { return vec![] };
     let Ok(v) = serde_json::from_str::<Value>(&s) else { return vec![] };
@@ -21,15 +20,17 @@ fn load_inputs(path: &str) -> Vec<Value> {
     }
 }
 
-fn main() {
+/// Parse the command line shared by every property binary; returns the arguments and the corpus /
+/// replay inputs (run first).  Also silences the default panic hook: panics are caught and classified.
+pub fn cli() -> (Args, Vec<Value>) {
     let argv: Vec<String> = std::env::args().collect();
-    if argv.len() < 5 {
-        eprintln!("usage: hv <property> <tier> <seed> <outdir> [--replay FILE] [--corpus DIR]");
+    if argv.len() < 4 {
+        eprintln!("usage: {} <tier> <seed> <outdir> [--replay FILE] [--corpus DIR]", argv[0]);
         std::process::exit(2);
     }
-    let mut args = Args { tier: argv[2].clone(), seed: argv[3].parse().unwrap_or(0), out: argv[4].clone(), replay: None };
+    let mut args = Args { tier: argv[1].clone(), seed: argv[2].parse().unwrap_or(0), out: argv[3].clone(), replay: None };
     let mut corpus: Vec<Value> = vec![];
-    let mut i = 5;
+    let mut i = 4;
     while i < argv.len() {
         match argv[i].as_str() {
             "--replay" => {
@@ -52,14 +53,6 @@ fn main() {
             _ => i += 1,
         }
     }
-    // panics are caught and classified by the harness; keep stderr quiet
     std::panic::set_hook(Box::new(|_| {}));
-    match argv[1].as_str() {
-        "c13" => c13::run(&args, &corpus),
-        "c03" => c03::run(&args, &corpus),
-        p => {
-            eprintln!("unknown property {p}");
-            std::process::exit(2);
-        }
-    }
+    (args, corpus)
 }
